@@ -32,6 +32,7 @@ type k2Batch struct {
 	Spec     string // "structural": ask the driver to compare with Gv.Spec.specMap
 	Pkgs        map[string]string
 	TypeImports []string
+	ConvAnchors []string
 }
 
 type k2Call struct {
@@ -97,7 +98,7 @@ func runK2(e *env, name string, batches []*k2Batch) (*k2Result, error) {
 			}
 			tree := scratch.Tree{"go.mod": "module " + module + "\n\ngo 1.18\n",
 				"p/types.go":  "package p\n\n" + timports + "var VerifAnchor = 0\n\n" + kb.Types,
-				"p/conv.go":   "package p\n\n" + convs.String(),
+				"p/conv.go":   "package p\n\n" + convImports(timports, kb.ConvAnchors) + convs.String(),
 				"p/custom.go": "package p\n\n" + imports + kb.Extra}
 			for k, v := range kb.Pkgs {
 				tree[k] = strings.ReplaceAll(v, "MODULE", module)
@@ -193,6 +194,9 @@ func runK2(e *env, name string, batches []*k2Batch) (*k2Result, error) {
 						var args []*sx.Node
 						var argStrs []string
 						for _, a := range m.RawArgs {
+							if string(a.Use) == "target" {
+								vg.ForgetCells() // the instance to update is the caller's own: it never aliases the source
+							}
 							if string(a.Use) == "target" && vg.Mode == 0 {
 								vg.Mode = 1 // the update target instance exists (a nil target is the caller's error)
 							}
@@ -202,6 +206,9 @@ func runK2(e *env, name string, batches []*k2Batch) (*k2Result, error) {
 								v = vg.Value(a.Type.T)
 							}
 							vg.Mode = vi
+							if string(a.Use) == "target" {
+								vg.ForgetCells()
+							}
 							args = append(args, v)
 							argStrs = append(argStrs, v.String())
 						}
@@ -287,4 +294,12 @@ func lastN(s string, n int) string {
 		return s
 	}
 	return s[len(s)-n:]
+}
+
+// convImports: the import block of p/types.go repeated for p/conv.go, with one use per import.
+func convImports(importBlock string, anchors []string) string {
+	if importBlock == "" || len(anchors) == 0 {
+		return ""
+	}
+	return importBlock + strings.Join(anchors, "\n") + "\n\n"
 }
